@@ -28,8 +28,9 @@ ASSUMPTIONS = ["socket.send outcome per call is one of {k of n bytes accepted (0
 
 class Sock(env.FakeSocket):
   """socket whose send outcomes are symbolic: code 0 = accept k of n, 1 = EAGAIN, 2 = fatal"""
-  def __init__(self, ctx, maxcalls):
+  def __init__(self, ctx, maxcalls, tag=''):
     env.FakeSocket.__init__(self, eof=False)
+    self.tag = tag; self.coarse = False
     self.ctx = ctx; self.accepted = []; self.calls = 0; self.maxcalls = maxcalls; self.fatal = False; self.after_fatal = 0
   def send(self, data, flags=0):
     ctx = self.ctx
@@ -38,12 +39,16 @@ class Sock(env.FakeSocket):
     if i >= self.maxcalls:
       # beyond the scripted bound: accept everything (quiescence)
       self.accepted.append(data); return len(data)
-    code = ctx.int('out%d' % i, 0, 2)
+    code = ctx.int('%sout%d' % (self.tag, i), 0, 2)
     if code == 1: raise OSError(errno.EAGAIN, 'would block')
+    if self.coarse:
+      # coarse outcome alphabet (two-connection obligation): everything / EAGAIN / a short write of half the bytes
+      k = len(data) if code == 0 else len(data) // 2
+      self.accepted.append(data[:k]); return k
     if code == 2:
       self.fatal = True
       raise OSError(errno.ECONNRESET, 'reset')
-    k = ctx.int('k%d' % i, 0, len(data))
+    k = ctx.int('%sk%d' % (self.tag, i), 0, len(data))
     k = int(k)
     self.accepted.append(data[:k])
     return k
@@ -126,6 +131,71 @@ def h_controller(ctx, nmsgs, ncalls, plan):
     ctx.check('connection marked disconnected', con.disconnected)
     con.close()                                            # what the I/O loop does when it notices
     ctx.check('closed reported exactly once', len(downs) == 1)
+  else:
+    ctx.witness('clean')
+    ctx.check('queue drained', len(ds._dataForConnection) == 0 and ds.sending is False)
+
+
+def h_two(ctx, plan, ncalls):
+  """two controller connections share the one DeferredSender (its `sending` flag is global).  plan letters: a / b = Connection.send of the next
+  message on connection A / B, f = one flush round in which select reports a *symbolic subset* of the backed-up connections writable."""
+  core = env.get_core()
+  of01 = ctx.pox('pox.openflow.of_01')
+  of01.PIPE_BUF = 8
+  of01.DeferredSender.start = lambda self: None
+  import pox.lib.util as plu
+  realping = plu.makePinger
+  of01.pox.lib.util.makePinger = lambda: env.DummyPinger()
+  try:
+    ds = of01.DeferredSender()
+  finally:
+    of01.pox.lib.util.makePinger = realping
+  of01.deferredSender = ds
+  socks = {}; cons = {}; queued = {'a': [], 'b': []}
+  for t in 'ab':
+    sk = Sock(ctx, ncalls, tag=t); sk.maxcalls = 0; sk.coarse = True
+    cons[t] = of01.Connection(sk); socks[t] = sk
+    sk.accepted = []; sk.calls = 0; sk.maxcalls = ncalls
+  nround = [0]
+  class Sel:
+    def __init__(self, rounds, everything): self.n = 0; self.rounds = rounds; self.everything = everything
+    def select(self, r, w, x, timeout=None):
+      self.n += 1
+      if self.n > self.rounds:
+        core.running = False
+        return [], [], []
+      w = list(w)
+      if self.everything: return [], w, []
+      nround[0] += 1
+      return [], [c for c in w if bool(ctx.bool('writable_%s_%d' % ('a' if c is cons['a'] else 'b', nround[0])))], []
+    def __getattr__(self, n):
+      import select as _s
+      return getattr(_s, n)
+  def flush(rounds, everything=False):
+    of01.select = Sel(rounds, everything)
+    core.running = True
+    try: ds.run()
+    finally: core.running = True
+  cnt = {'a': 0, 'b': 0}
+  def check(quiescent):
+    for t in 'ab':
+      got = _concat(ctx, socks[t].accepted); exp = _concat(ctx, queued[t])
+      ctx.check('connection %s: accepted bytes are a prefix of its queued stream (length)' % t.upper(), len(got) <= len(exp))
+      if len(got) <= len(exp):
+        ctx.check('connection %s: accepted bytes are a prefix of its queued stream' % t.upper(), ctx.Eq(env.tobytes(ctx, got), env.tobytes(ctx, exp[:len(got)])))
+      if quiescent and not socks[t].fatal: ctx.check('connection %s: at quiescence everything was written' % t.upper(), len(got) == len(exp))
+  for op in plan:
+    if op in 'ab':
+      m = ctx.bytes('m%s%d' % (op, cnt[op]), 8 + 2 * cnt[op]); cnt[op] += 1
+      if not cons[op].disconnected: queued[op].append(m)
+      cons[op].send(m)
+    else:
+      flush(1)
+    check(False)
+  flush(len(plan) * 3 + 2 * ncalls + 2, everything=True)
+  check(True)
+  for t in 'ab': ctx.check('connection %s: nothing written after a fatal error' % t.upper(), socks[t].after_fatal == 0)
+  if socks['a'].fatal or socks['b'].fatal: ctx.witness('fatal')
   else:
     ctx.witness('clean')
     ctx.check('queue drained', len(ds._dataForConnection) == 0 and ds.sending is False)
@@ -270,6 +340,8 @@ def obligations(tier):
   return [
     Obligation('O3_threads', h_threads, tcases, witnesses=('done', 'bound-reached'), max_decisions=20000, mode='int', path_seconds=120,
                desc='Connection.send (cooperative thread) against the real DeferredSender.run loop (its own thread), interleaved at statement granularity: stream preserved'),
+    Obligation('O4_two_connections', h_two, [dict(plan=p, ncalls=3) for p in (['abfb', 'abfab', 'bafa'] + (['abffba', 'aabfb'] if thorough else []))], witnesses=('clean',),
+               max_decisions=20000, desc='two connections behind the one DeferredSender, symbolic writable subsets per flush round: each connection keeps its own stream order'),
     Obligation('O1_controller', h_controller, [dict(nmsgs=p.count('s'), ncalls=nc, plan=p) for p in cplans], witnesses=('fatal', 'clean'),
                max_decisions=20000, desc='Connection.send + DeferredSender: accepted stream == queued stream; no write after fatal error; one ConnectionDown'),
     Obligation('O2_ioworker', h_ioworker, [dict(nmsgs=sum(p.count(c) for c in 'sq'), ncalls=nc, plan=p) for p in wplans], witnesses=('fatal', 'clean'),
